@@ -14,7 +14,7 @@ def make_cases(rng, tier, maxl):
         sa = gen.rand_shell(rng, LA, A, nprim=kw.get("np", rng.randint(1, 2)), emin=kw.get("emin", 0.25), emax=kw.get("emax", 4.0))
         sb = gen.rand_shell(rng, LB, B, nprim=kw.get("np", rng.randint(1, 2)), emin=kw.get("emin", 0.25), emax=kw.get("emax", 4.0))
         u = gen.rand_ecp(rng, L, C, nper=(1, 2), amin=0.3, amax=6.0)
-        cases.append({"id": "%s%d_%d%d%d_%s" % (tag, len(cases), LA, LB, L, gk.replace("=", "")), "extra": {"geom": gk, "stratum": tag}, "shells": [sa, sb], "ecps": [u]})
+        cases.append({"id": "%s%d_%d%d%d_%s" % (tag, len(cases), LA, LB, L, gk.replace("=", "").replace("~", "n").replace("-", "")), "extra": {"geom": gk, "stratum": tag}, "shells": [sa, sb], "ecps": [u]})
     hi = 2 if tier == "quick" else min(maxl, 4)
     for LA in range(hi + 1):
         for LB in range(hi + 1):
@@ -29,6 +29,12 @@ def make_cases(rng, tier, maxl):
     # diffuse / tight mixtures (closed-form switch, small aA)
     for _ in range(8 if tier == "quick" else 80):
         add("d", rng.randint(0, 2), rng.randint(0, 2), rng.randint(1, 2), "distinct", emin=0.03, emax=0.4)
+    # special positions: planar / linear arrangements along the Cartesian axes
+    for _ in range(8 if tier == "quick" else 60):
+        add("p", rng.randint(1, 2), rng.randint(1, 2), rng.randint(1, 2), rng.choice(["planar-z", "planar-x", "planar-y", "axial"]))
+    # one shell just off the ECP centre (beyond the 1e-6 on-centre switch): the general three-centre path must be taken
+    for _ in range(10 if tier == "quick" else 80):
+        add("n", rng.randint(0, 2), rng.randint(0, 2), rng.randint(1, 2), rng.choice(["A~C", "B~C"]))
     # local potentials that change sign inside the integration window (type-1 prescreen)
     for k in range(6 if tier == "quick" else 40):
         z = rng.uniform(0.85, 1.05)
@@ -50,7 +56,7 @@ def run_ka(res, tier, root, maxl, rng, tmp):
     gd = t_gen.extract(os.path.join(root, "b/src/generated"))
     cases = []
     hi = maxl if tier == "thorough" else 3
-    geoms = ["distinct", "A=C", "B=C", "A=B=C", "A=B"]
+    geoms = ["distinct", "A=C", "B=C", "A=B=C", "A=B", "A~C", "B~C", "planar-z", "planar-x", "axial"]
     for LA in range(hi + 1):
         for LB in range(hi + 1):
             for gk in geoms:
@@ -67,7 +73,7 @@ def run_ka(res, tier, root, maxl, rng, tmp):
                             extra["tri_%d_A" % l] = " ".join("%d,%d,%d" % t for t in g["A"]) or "-"
                             extra["tri_%d_B" % l] = " ".join("%d,%d,%d" % t for t in g["B"]) or "-"
                             extra["nbase_%d" % l] = g["callA"][0]
-                    cases.append({"id": "k%d_%d%d%d_%s" % (len(cases), LA, LB, L, gk.replace("=", "")), "extra": extra, "shells": [sa, sb], "ecps": [u]})
+                    cases.append({"id": "k%d_%d%d%d_%s" % (len(cases), LA, LB, L, gk.replace("=", "").replace("~", "n").replace("-", "")), "extra": extra, "shells": [sa, sb], "ecps": [u]})
     cf = os.path.join(tmp, "ka_cases.txt"); gen.write_cases(cf, cases)
     exe = compile_driver("drv_pairleaf.cpp", "rel")
     of = os.path.join(tmp, "ka_out.txt")
